@@ -249,6 +249,10 @@ def run(ctx, R, tier):
     err_ring(F, R)
     err_propagation(F, R)
     err_flag_writers(F, R)
+    # 'ends within bounded time once the sound has been stopped': the thread ends when it reads Stopped from the shared state,
+    # and the sound publishes its state only when the manager's update says it changed -> every edge into Stopped reports true
+    from .c03 import state_change_reported
+    state_change_reported(F, R, rule='B.C10.exit', only_to=('Stopped',))
     # the decoder thread exists at all: into_sound() starts the scheduler on every success path (a streaming sound whose
     # decoder thread is never started stays silent for ever and never reports an error)
     isb = None
@@ -273,6 +277,33 @@ def run(ctx, R, tier):
     from ..rules import always_before
     R.check(len(pushes) == 1 and len(stores) == 1 and order_ok(runb, pushes, stores) and (runb.dominates(pushes[0], stores[0]) or always_before(runb, pushes, stores[0])),
             'B.C10.end-order', 'producer', 'reached_end is raised before the last frame is pushed', detail='push ≺ reached_end.store(true)')
+
+
+def ends_only_when_done(F, R, rule='B.C10.exit'):
+    """The decoder thread stops decoding (run() returns End) only when the sound is Stopped, the audio is at its end, or the
+    audio side is gone: every End path has taken one of these three tests, and the shared state is compared with Stopped by
+    equality only (a thread that also ends for a sound that is fading out / paused leaves the ring to run dry: silence where
+    the file has audio)."""
+    runb = F.body(DS + '::run')
+    if not R.check(runb is not None, rule, 'anchor:run', 'DecodeScheduler::run not found'):
+        return
+    n = 0
+    for p in explore(runb):
+        if p.end != 'return' or 'NextStep::End' not in str(p.ret):
+            continue
+        n += 1
+        why = []
+        for bb, d, l in p.decisions:
+            if 'Shared::state' in d and '::eq(' in d and 'Stopped' in d and bool_label(l) is True:
+                why.append('stopped')
+            if d.endswith('.transport.playing') and bool_label(l) is False:
+                why.append('end-of-data')
+            if 'is_abandoned' in d and bool_label(l) is True:
+                why.append('abandoned')
+        R.check(bool(why), rule, 'end-only-when-done', 'run() ends the decoder thread on a path that has established none of: state == Stopped, '
+                '!transport.playing, is_abandoned(); decisions: %s' % [(d[:60], str(l)) for _, d, l in p.decisions][:6],
+                detail={'reasons': why})
+    R.floor(rule, n, 3)
 
 
 def err_ring(F, R):
